@@ -1,16 +1,30 @@
 """C05 - parsing is a pure function of the command line, the format and the mode."""
-import itertools, copy
+import itertools, copy, json
 from hutil import S, unS, canon_floats, canon_floats_w
 import parsergen as G
+from props import C01 as L
+from props import C02 as M
+import translate_c05
 
 MODEL = "C05"
 PROP_FILES = ["Props/C05.v"]
-RULE = ("histories of parse requests on ONE DefaultArgsParser: all sequences of length 1-2 (quick) / 1-3 (thorough) over a pool of 38 "
-        "requests (5 formats, two of them sharing every name with another but not the flags, x strict/lenient x succeeding lines and each error kind), seeded random to length 6; each result compared "
-        "with a fresh parser's; argv list, RawArgs tokens/option_tokens and the format's listings snapshotted before/after; non-trivial = >= 2 requests of which >= 1 sets "
-        "an option; distinct by history")
-TRUSTED = ["'does not alter the list / raw arguments / format it was handed' is about Python aliasing: carried by snapshot comparison (testing)"]
-ASSUMPTIONS = []
+RULE = ("histories of parse requests on ONE DefaultArgsParser.  Pool of requests = 31 fixed lines over 5 formats (two of them sharing "
+        "every name with another but not the flags) + fixed lines over base formats, a command option, the 'cmd11' argument name, "
+        "grouped and glued short options + requests drawn from the seed out of C01's generator (a valid spelling over a generated "
+        "format: base levels, command names, groups) and C02's (a single-fault mutation, a token soup); every line strict and "
+        "lenient.  All histories of length 1-2 over the pool, with format objects built per request and with one object per format "
+        "(quick; thorough adds length 3 over the 41 original requests), seeded random to length 6, a third of them through two+ "
+        "CommandConfig objects sharing one parser via set_args_parser / Command.parse.  Each result compared with a fresh parser's; "
+        "argv list, RawArgs tokens/option_tokens/script name/text and the format's listings (own and base chain, aliases, command "
+        "options) snapshotted before/after; every Args returned is read again at the end of the history.  Next to that the state-"
+        "taking model of Props/C05.v (parse_obj: the maps reset at entry are a parameter) is compared with the real body of parse() "
+        "run with the rebinding of _options / _arguments / both disabled (histories over one format: all pairs of the pool's "
+        "requests on it + random to length 6): model and code must leak alike.  Non-trivial = >= 2 "
+        "requests of which >= 1 sets an option; distinct by history")
+TRUSTED = ["'does not alter the list / raw arguments / format it was handed' is about Python aliasing: carried by snapshot comparison (testing)",
+           "harness/translate_c05.py: the model's parse starts from empty scratch maps because the source of DefaultArgsParser.parse "
+           "assigns fresh OrderedDicts to self._arguments and self._options before anything else (AST check, re-run at every bin/setup and check)"]
+ASSUMPTIONS = ["exhaustive to length 2 (quick) / 3 over the 41 original requests (thorough), not the 6 of the quantifier; lengths 3..6 are sampled"]
 
 EXTRA = ["zz"]
 # formats 3 and 4 are "twins" of 0 and 2: the same option / argument / command names with other flags and aliases, so that
@@ -30,74 +44,299 @@ LINES = [
 ]
 POOL = [[fi, 0, toks] for fi, toks in LINES] + [[fi, 1, toks] for fi, toks in LINES[:8] + LINES[16:18]]
 
+# more fixed requests: base formats (#33, #34), the argument named like the parser's first pseudo-argument (#39 after #28),
+# a command option in the format, grouped / glued short options, multi-valued options twice
+CO_FMT = [[G.cname("server", ["srv"]), G.copt("remove", "r", ["rm", "D"]), G.opt("verbose", "v", G.NO_VALUE), G.opt("quiet", "q", G.NO_VALUE),
+           G.opt("opt", "o", G.REQ_V, "dflt"), G.arg("a1", G.A_REQ)]]
+WITNESS_FMT = [[G.opt("num", "n", G.REQ_V | G.O_INT), G.arg("port", G.A_OPT | G.A_INT, 80)]]
+MORE = [
+    (G.SMALL_FORMATS[33], ["server", "x", "--opt=1", "y"]), (G.SMALL_FORMATS[33], ["srv", "-v", "x"]), (G.SMALL_FORMATS[33], ["-vo1"]),
+    (G.SMALL_FORMATS[34], ["server", "add", "--mul", "a", "-lb", "x", "y", "z"]), (G.SMALL_FORMATS[34], ["x", "--mul"]),
+    (G.SMALL_FORMATS[28], ["server", "x"]), (G.SMALL_FORMATS[39], ["server", "x"]), (G.SMALL_FORMATS[39], ["x"]),
+    (G.SMALL_FORMATS[37], ["-vn5", "x"]), (G.SMALL_FORMATS[37], ["x", "-vl", "a", "-lb", "--", "-v"]),
+    # the witness of Props/C05.v reuse_unfixed_refuted (ReuseWitness.H_opts / H_args): replayed on the real parse() body with the
+    # reset disabled, and on the parser as it is
+    (WITNESS_FMT, ["--num", "5"]), (WITNESS_FMT, []), (WITNESS_FMT, ["8080"]),
+    (CO_FMT, ["srv", "-vqoX", "x"]), (CO_FMT, ["-vq", "x"]), (CO_FMT, ["x", "--remove"]), (CO_FMT, ["-vr", "x"]), (CO_FMT, ["-qvo"]),
+]
+
+
+def drawn_requests(rng, n_formats):
+    """requests out of C01's and C02's generators over formats drawn from the seed: (levels, lenient, tokens)"""
+    out = []
+    for i in range(n_formats):
+        lv = G.rand_levels(rng, nopts=rng.randint(1, 4), nargs=rng.randint(0, 3), nbase=(0, 1, 2)[i % 3], ncn=(0, 1, 2, 1)[i % 4],
+                           short_flags=(2, 0, 3)[i % 3], short_valued=(1, 0)[i % 2])
+        asg = L.assignments(lv, rng, 1, max_multi=2)[0]
+        lines = L.spell_all(lv, asg, rng, limit=3, group_bias=0.6)
+        if not lines:
+            continue
+        entries = lines[0]
+        segs = L.group_segments(entries)
+        good = L.finish(L.grouped(entries, max(segs, key=lambda s: s[1] - s[0])) if segs else entries)[0]
+        out.append((lv, rng.randint(0, 1), good))
+        fl = M.faults(entries, lv, rng)
+        name, bad = rng.choice(fl)
+        out.append((lv, rng.randint(0, 1), bad))
+        if i % 2 == 0:
+            al = M.alphabet(lv)
+            out.append((lv, rng.randint(0, 1), [rng.choice(al) for _ in range(rng.randint(1, 4))]))
+    return out
+
+
+def build_pool(rng, tier):
+    pool = [(FORMATS[fi], ln, toks) for fi, ln, toks in POOL]
+    core = len(pool)
+    pool += [(FORMATS[fi], 1, toks) for fi, toks in LINES[8:16] + LINES[18:]]            # lenient mode on all
+    for lv, toks in MORE:
+        pool += [(lv, 0, toks), (lv, 1, toks)]
+    pool += drawn_requests(rng, {"quick": 8, "thorough": 24, "search": 4}[tier])
+    return pool, core
+
+
+def mk_case(reqs, share):
+    """reqs: [(levels, lenient, tokens)] -> a case whose "fmts" holds the distinct formats it uses"""
+    fmts, keys, out = [], {}, []
+    for lv, ln, toks in reqs:
+        k = json.dumps(lv, sort_keys=True)
+        if k not in keys:
+            keys[k] = len(fmts)
+            fmts.append(lv)
+        out.append([keys[k], ln, list(toks)])
+    return {"fmts": fmts, "reqs": out, "share": share}
+
+
+def via_ok(lv):
+    return len(lv) == 1 and all(e["k"] in ("o", "a") for e in lv[0])
+
+
+def mk_via_case(reqs):
+    """the same history through Command.parse of command configurations sharing one parser: every format gets the command
+    name of its configuration in front"""
+    c = mk_case(reqs, 1)
+    c["fmts"] = [[[G.cname("c%d" % i, [])] + lv[0]] for i, lv in enumerate(c["fmts"])]
+    c["via"] = 1
+    return c
+
 
 def gen(rng, tier, info):
     depth = {"quick": 2, "thorough": 3, "search": 2}[tier]
     nrand = {"quick": 3000, "thorough": 30000, "search": 2000}[tier]
+    pool, core = build_pool(rng, tier)
     cases = []
-    for k in range(1, depth + 1):
-        for seq in itertools.product(range(len(POOL)), repeat=k):
-            cases.append({"reqs": [POOL[i] for i in seq]})
-    # the same histories of length 2 with ONE format object per format for the whole history (an application keeps its
-    # formats): whatever a parser remembers about "the same format, the same text" shows here (C05-g)
-    for seq in itertools.product(range(len(POOL)), repeat=2):
-        cases.append({"reqs": [POOL[i] for i in seq], "share": 1})
+    for r in pool:
+        cases.append(mk_case([r], 0))
+    # all histories of length 2: format objects built for each request (and dropped) / ONE format object per format for the
+    # whole history (an application keeps its formats; whatever a parser remembers about "the same format, the same text"
+    # shows there, C05-g); with kept objects every Args is read again at the end
+    for a in pool:
+        for b in pool:
+            cases.append(mk_case([a, b], 0))
+            cases.append(mk_case([a, b], 1))
+    if depth >= 3:
+        for seq in itertools.product(range(core), repeat=3):
+            cases.append(mk_case([pool[i] for i in seq], 0))
     n_ex = len(cases)
-    for _ in range(nrand):
-        k = rng.randint(depth + 1, 6)
-        cases.append({"reqs": [POOL[rng.randrange(len(POOL))] for _ in range(k)], "share": rng.randrange(2)})
+    eligible = [r for r in pool if via_ok(r[0])]
+    n_via = 0
+    for a in eligible[:40]:
+        for b in eligible[:40]:
+            cases.append(mk_via_case([a, b]))
+            n_via += 1
+    for i in range(nrand):
+        k = rng.randint(3, 6)
+        if i % 3 == 2:
+            cases.append(mk_via_case([rng.choice(eligible) for _ in range(k)]))
+            n_via += 1
+        else:
+            cases.append(mk_case([rng.choice(pool) for _ in range(k)], rng.randrange(3)))
+    # the state-taking model (Model/Parser.v parse_from / parse_obj; Props/C05.v reuse_unfixed_refuted) against the real body
+    # of parse() with the rebinding of a scratch map at entry DISABLED: 1 = only _arguments reset (the code before the
+    # repair), 2 = only _options, 3 = none.  Here re-use is expected to differ from fresh - model and code must leak alike.
+    # Histories over ONE format (any lines, both modes): what one format leaves in the maps has the shape the same format
+    # expects; across formats the code meets shapes (a text where a list is expected) the model does not describe.
+    n_unreset = 0
+    by_fmt = {}
+    for r in pool:
+        by_fmt.setdefault(json.dumps(r[0], sort_keys=True), []).append(r)
+    groups = sorted(by_fmt.values(), key=lambda g: -len(g))
+    def kinds(g):
+        # a leftover CommandName object in _arguments is a value the model writes as its name (Parser.v flatten): formats
+        # with command names only with _arguments reset
+        return (1,) if G.fmt_cnames(g[0][0]) else (1, 2, 3)
+    for g in groups:
+        for a in g:
+            for b in g:
+                for r in kinds(g):
+                    c = mk_case([a, b], 0)
+                    c["resets"] = r
+                    cases.append(c)
+                    n_unreset += 1
+    for i in range(nrand // 3):
+        g = rng.choice(groups[:12])
+        c = mk_case([rng.choice(g) for _ in range(rng.randint(3, 6))], 0)
+        c["resets"] = rng.choice(kinds(g))
+        cases.append(c)
+        n_unreset += 1
     info["exhaustive"] = True
-    info["distribution"] = {"pool": len(POOL), "exhaustive": n_ex, "random": nrand, "max_len_exhaustive": depth}
+    info["distribution"] = {"pool": len(pool), "histories_on_a_parser_with_a_reset_disabled": n_unreset, "pool_original_requests": core, "pool_formats": len(set(json.dumps(r[0], sort_keys=True) for r in pool)),
+                            "pool_lenient": sum(1 for r in pool if r[1]), "exhaustive": n_ex, "random": nrand, "max_len_exhaustive": depth,
+                            "through_shared_parser_of_command_configs": n_via}
     return cases
 
 
+def case_fmts(c):
+    return c["fmts"] if "fmts" in c else FORMATS
+
+
 def wire(c):
-    return [[G.wire_levels(f) for f in FORMATS], [[r[0], r[1], [S(t) for t in r[2]]] for r in c["reqs"]], [S(x) for x in EXTRA]]
+    w = [[G.wire_levels(f) for f in case_fmts(c)], [[r[0], r[1], [S(t) for t in r[2]]] for r in c["reqs"]], [S(x) for x in EXTRA]]
+    return w + [c["resets"]] if c.get("resets") else w
 
 
 def describe(c):
-    return ("one parser, one format object per format: " if c.get("share") else "one parser: ") + "; ".join("fmt#%d %s %r" % (r[0], "lenient" if r[1] else "strict", r[2]) for r in c["reqs"])
+    fm = case_fmts(c)
+    used = sorted(set(r[0] for r in c["reqs"]))
+    how = ("one parser whose parse() does not reset %s: " % {1: "_options", 2: "_arguments", 3: "_arguments/_options"}[c["resets"]]) if c.get("resets") else \
+          "commands sharing one parser (set_args_parser): " if c.get("via") else \
+          {0: "one parser: ", 1: "one parser, one format object per format: ", 2: "one parser, every object kept: "}[c.get("share", 0)]
+    return how + "; ".join("fmt#%d %s %r" % (r[0], "lenient" if r[1] else "strict", r[2]) for r in c["reqs"]) + \
+        " where " + "; ".join("fmt#%d = %s" % (i, G.fmt_shape(fm[i])) for i in used)
 
 
 def _fmt_vector(fmt):
+    """everything the format lists: own elements and, recursively, the base chain"""
+    if fmt is None:
+        return None
     return [list(fmt.get_arguments().keys()), list(fmt.get_options().keys()), [c.string for c in fmt.get_command_names()],
             [(a.name, a.flags, repr(a.default)) for a in fmt.get_arguments().values()],
-            [(o.long_name, o.short_name, o.flags, repr(o.default)) for o in fmt.get_options().values()]]
+            [(o.long_name, o.short_name, o.flags, repr(o.default)) for o in fmt.get_options().values()],
+            [(c.string, list(c.aliases)) for c in fmt.get_command_names()],
+            [(o.long_name, o.short_name, list(o.long_aliases), list(o.short_aliases)) for o in fmt.get_command_options()],
+            [list(fmt.get_arguments(False).keys()), list(fmt.get_options(False).keys()), [c.string for c in fmt.get_command_names(False)],
+             [o.long_name for o in fmt.get_command_options(False)]],
+            _fmt_vector(fmt.base_format)]
+
+
+def _build_format(levels):
+    from clikit.api.args.format import ArgsFormat
+    fmt = None
+    for lvl in levels:
+        fmt = ArgsFormat([G.mk_element(e) for e in lvl], fmt)
+    return fmt
+
+
+def _via_commands(fmts, shared):
+    """one CommandConfig per format, all using the same parser object; the format of a command = its name + its elements"""
+    from clikit.api.config.command_config import CommandConfig
+    from clikit.api.command.command import Command
+    cmds = []
+    for lv in fmts:
+        cfg = CommandConfig(lv[0][0]["name"])
+        cfg.set_args_parser(shared)
+        for e in lv[0][1:]:
+            d = e["default"]
+            d = list(d) if isinstance(d, list) else d
+            if e["k"] == "o":
+                cfg.add_option(e["long"], e["short"], e["flags"], None, d)
+            else:
+                cfg.add_argument(e["name"], e["flags"], None, d)
+        cmds.append(Command(cfg))
+    return cmds
+
+
+_SOURCE_FACT = []
+
+
+def source_resets_at_entry():
+    """1 when the source the parser class was imported from still starts parse() by resetting both scratch maps and keeps
+    no other state on the object (harness/translate_c05.py; what C05's model assumes), else 0.  Once per worker."""
+    if not _SOURCE_FACT:
+        import inspect
+        from clikit.args import DefaultArgsParser
+        try:
+            translate_c05.check(path=inspect.getsourcefile(DefaultArgsParser))
+            _SOURCE_FACT.append(1)
+        except Exception:
+            _SOURCE_FACT.append(0)
+    return _SOURCE_FACT[0]
+
+
+_UNRESET = {}
+
+
+def unreset_class(r):
+    """DefaultArgsParser whose parse() runs the real body but can no longer rebind self._options (r = 1), self._arguments
+    (r = 2) or either (r = 3): the attribute becomes a property that keeps the object created by __init__ and ignores later
+    assignments.  (translate_c05 checks that parse entry and __init__ are the only places that rebind them.)"""
+    if r not in _UNRESET:
+        from clikit.args import DefaultArgsParser
+
+        def sticky(slot):
+            def get(self):
+                return self.__dict__[slot]
+
+            def set_(self, v):
+                if slot not in self.__dict__:
+                    self.__dict__[slot] = v
+            return property(get, set_)
+        ns = {}
+        if r in (2, 3):
+            ns["_arguments"] = sticky("_kept_arguments")
+        if r in (1, 3):
+            ns["_options"] = sticky("_kept_options")
+        _UNRESET[r] = type("UnresetParser%d" % r, (DefaultArgsParser,), ns)
+    return _UNRESET[r]
 
 
 def run_impl(c):
     from clikit.args import DefaultArgsParser, ArgvArgs
-    from clikit.api.args.format import ArgsFormat
-    shared = DefaultArgsParser()
-    out, fresh_out, untouched = [], [], 1
+    from hutil import err
+    shared = unreset_class(c["resets"])() if c.get("resets") else DefaultArgsParser()
+    fmts = case_fmts(c)
+    share = c.get("share", 0)
+    out, fresh_out, untouched, reread = [], [], 1, 1
     kept = {}
+    held = []          # with kept objects: (format, its listing, argv, copy, raw, tokens, option tokens, text, Args or None, first observation)
+    cmds = _via_commands(fmts, shared) if c.get("via") else None
     for fi, lenient, toks in c["reqs"]:
         # a format object built for this request only (and dropped afterwards) - or, with "share", one object per format
         # for the whole history
-        if c.get("share") and fi in kept:
+        if cmds is not None:
+            fmt = cmds[fi].args_format
+        elif share == 1 and fi in kept:
             fmt = kept[fi]
         else:
-            fmt = None
-            for lvl in FORMATS[fi]:
-                fmt = ArgsFormat([G.mk_element(e) for e in lvl], fmt)
-            if c.get("share"):
+            fmt = _build_format(fmts[fi])
+            if share == 1:
                 kept[fi] = fmt
         before = _fmt_vector(fmt)
         argv = ["script"] + list(toks)
         argv_before = list(argv)
         raw = ArgvArgs(argv)
-        tok_before, opt_before = list(raw.tokens), list(raw.option_tokens)
+        tok_before, opt_before, text_before = list(raw.tokens), list(raw.option_tokens), (raw.script_name, raw.to_string())
+        a, obs = None, None
         try:
-            a = shared.parse(raw, fmt, bool(lenient))
-            out.append([0, G.observe_args(fmt, a, EXTRA)])
+            a = cmds[fi].parse(raw, bool(lenient)) if cmds is not None else shared.parse(raw, fmt, bool(lenient))
+            obs = G.observe_args(fmt, a, EXTRA)
+            out.append([0, obs])
         except Exception as e:
-            from hutil import err
             out.append(err(e))
-        if argv != argv_before or raw.tokens != tok_before or raw.option_tokens != opt_before or _fmt_vector(fmt) != before:
+        if argv != argv_before or raw.tokens != tok_before or raw.option_tokens != opt_before or \
+           (raw.script_name, raw.to_string()) != text_before or _fmt_vector(fmt) != before:
             untouched = 0
         fresh_out.append(G.parse_once(DefaultArgsParser(), fmt, toks, bool(lenient), EXTRA))
-        del fmt, raw
-    return [0, out, fresh_out, untouched]
+        if share or cmds is not None:
+            held.append((fmt, before, argv, argv_before, raw, tok_before, opt_before, text_before, a, obs))
+        del fmt, raw, a
+    # what was handed in and what was handed out earlier is still what it was
+    for fmt, before, argv, argv_before, raw, tok_before, opt_before, text_before, a, obs in held:
+        if argv != argv_before or raw.tokens != tok_before or raw.option_tokens != opt_before or \
+           (raw.script_name, raw.to_string()) != text_before or _fmt_vector(fmt) != before:
+            untouched = 0
+        if a is not None and G.observe_args(fmt, a, EXTRA) != obs:
+            reread = 0
+    return [0, out, fresh_out, untouched, reread, source_resets_at_entry()]
 
 
 def canon_impl(c, o):
@@ -109,21 +348,36 @@ def canon_model_w(c, w):
 
 
 def oracle(c, o):
+    if c.get("resets"):
+        # a deliberately broken parser: nothing to demand of it; the model (parse_obj) must predict what it does
+        return None
     if not o[3]:
         return "parse-altered-its-inputs"
+    if len(o) > 4 and not o[4]:
+        return "earlier-result-changed-by-a-later-parse"
     for i, (a, b) in enumerate(zip(o[1], o[2])):
         if a != b:
             return "reused-parser-differs-from-fresh"
+    if len(o) > 5 and not o[5]:
+        # nothing wrong seen on this history, but the fact the model's theorems rest on no longer holds for the source
+        return "source-of-parse-no-longer-resets-its-scratch-first-or-keeps-other-state"
     return None
 
 
 def nontrivial_key(c, o):
     if len(c["reqs"]) >= 2 and any(any(t.startswith("-") and t != "--" for t in r[2]) for r in c["reqs"]):
-        return c["reqs"]
+        return [c.get("fmts"), c["reqs"], c.get("share", 0), c.get("via", 0), c.get("resets", 0)]
     return None
 
 
 def shrink(c):
     r = c["reqs"]
     for i in range(len(r)):
-        yield {"reqs": r[:i] + r[i + 1:], "share": c.get("share", 0)}
+        d = dict(c)
+        d["reqs"] = r[:i] + r[i + 1:]
+        yield d
+    for i in range(len(r)):
+        for j in range(len(r[i][2])):
+            d = dict(c)
+            d["reqs"] = r[:i] + [[r[i][0], r[i][1], r[i][2][:j] + r[i][2][j + 1:]]] + r[i + 1:]
+            yield d
